@@ -593,6 +593,17 @@ fn c18_one(ctx: &Ctx, m: usize, k: u64, frag: &mut Frag) {
                 }
             }
         }
+        // ... and about half of the singular scalar / string / bytes fields that `a` sets occur
+        // in `b` once more, last, explicitly with the DEFAULT value (a zero-length record for
+        // bytes / string): the later occurrence must still win
+        for (num, _) in &a.0 {
+            if let Some(PField { kind: FKind::Plain(label, ty), .. }) = c.schema.msgs[m].fields.iter().find(|f| f.num == *num) {
+                if !matches!(label, Label::Repeated) && !matches!(ty, PTy::Msg(_)) && rng.chance(1, 2) {
+                    b.0.push((*num, default_of(&c.schema, ty)));
+                    frag.count("derived.explicit_default_after_value");
+                }
+            }
+        }
         b
     } else {
         gen_val(ctx, m, k + 7919, 0xC18)
@@ -729,6 +740,7 @@ impl Check for C18 {
             r.floor(k, 200);
         }
         r.floor("derived.same_key_entries", 20);
+        r.floor("derived.explicit_default_after_value", 20);
         for k in ["observed.repeated_accumulate", "observed.embedded_message_merged", "observed.map_entries_from_both", "observed.oneof_member_replaced"] {
             r.floor(k, 5);
         }
@@ -782,6 +794,40 @@ fn pb_faults(b: &[u8], rng: &mut Rng) -> Vec<(String, &'static str, Vec<u8>)> {
                     sh += 7;
                     if byte & 0x80 == 0 || sh > 63 {
                         break;
+                    }
+                }
+                // a fault INSIDE the embedded message, after all of its fields were decoded: an
+                // invalid key (field 1, wire type 7) appended to the payload, the length adjusted;
+                // the same one level further down (last embedded record of the payload)
+                {
+                    let end = (p + len as usize).min(b.len());
+                    let payload = &b[p.min(end)..end];
+                    if let Ok(recs) = records(payload) {
+                        if !recs.is_empty() && len as usize == payload.len() {
+                            let rebuild = |inner: Vec<u8>| {
+                                let mut m = b[..lstart].to_vec();
+                                refmodel::pb::put_varint(&mut m, inner.len() as u64);
+                                m.extend_from_slice(&inner);
+                                m.extend_from_slice(&b[end..]);
+                                m
+                            };
+                            let mut inner = payload.to_vec();
+                            inner.push(0x0F);
+                            v.push((format!("inner@{}", lstart), "inner", rebuild(inner)));
+                            // depth 2: poison the last length-delimited record of the payload
+                            if let Some((idx, last)) = recs.iter().enumerate().rev().find(|(_, r)| r.first().map(|k| k & 7 == 2).unwrap_or(false) && r.len() < 128) {
+                                // key (1 byte assumed when < 0x80), length (1 byte as r.len() < 128), body
+                                if last[0] & 0x80 == 0 && last.len() >= 2 && (last[1] as usize) == last.len() - 2 && records(&last[2..]).map(|x| !x.is_empty()).unwrap_or(false) {
+                                    let mut inner: Vec<u8> = recs[..idx].concat();
+                                    inner.push(last[0]);
+                                    inner.push(last[1] + 1);
+                                    inner.extend_from_slice(&last[2..]);
+                                    inner.push(0x0F);
+                                    inner.extend_from_slice(&recs[idx + 1..].concat());
+                                    v.push((format!("inner2@{}", lstart), "inner", rebuild(inner)));
+                                }
+                            }
+                        }
                     }
                 }
                 let rem = b.len() - p;
@@ -883,6 +929,7 @@ fn c10_one(ctx: &Ctx, m: usize, k: u64, frag: &mut Frag) {
                     _ => groups(depth - 1, 6, &[0x20, 0x07]),
                 };
                 let hname = ["singular-message", "repeated-message", "map-value", "unknown-group", "group-field-6"][how as usize];
+                monitors::driver::checkpoint_violations(frag);
                 if !sub_mark_n(ord, &format!("c10 depth kind={} depth={}", hname, depth)) {
                     continue;
                 }
@@ -919,6 +966,7 @@ fn c10_one(ctx: &Ctx, m: usize, k: u64, frag: &mut Frag) {
     let mut claim_peaks: std::collections::BTreeMap<String, Vec<(String, usize)>> = Default::default();
     for (desc, kind, bytes) in &faults {
         ord += 1;
+        monitors::driver::checkpoint_violations(frag);
         if !sub_mark_n(ord, &format!("c10 {} {} kind={} {}", mname(m), desc, kind, hex(&bytes[..bytes.len().min(80)]))) {
             continue;
         }
@@ -975,6 +1023,7 @@ fn c19_one(ctx: &Ctx, m: usize, k: u64, frag: &mut Frag) {
     let mut ord = 0u64;
     for (desc, kind, bytes) in pb_faults(&base, &mut rng) {
         ord += 1;
+        monitors::driver::checkpoint_violations(frag);
         if !sub_mark_n(ord, &format!("c19 pb {} {} {}", mname(m), desc, hex(&bytes[..bytes.len().min(80)]))) {
             continue;
         }
@@ -995,6 +1044,7 @@ fn c19_one(ctx: &Ctx, m: usize, k: u64, frag: &mut Frag) {
         let l3 = alloc::snap().live;
         frag.eval();
         frag.count("pb.failed_decodes");
+        frag.count(&format!("pb.failed.{}", kind));
         frag.distinct(fnv1a(format!("pb|{}|{}|{}", mname(m), kind, desc.split('@').next().unwrap_or("")).as_bytes()));
         if l3 != l1 {
             frag.violation("c19|pb|leak", &format!("{}: {} bytes stay live per failed decode (fault {})", mname(m), (l3 - l1) / 2, desc), json!({"corpus": c.corpus, "config": c.config, "message": c.schema.full_name(m), "message_idx": m, "fault": desc, "input_hex": hex(&bytes)}));
